@@ -331,7 +331,7 @@ def volume_ssa(net, times, vdt, volume, t0=0.0, fire_cost=1, edge_cost=1, x0=Non
         T, Q = times[idx], t0 + nq * vdt
         fire = False
         if Lam == 0:
-            proposed = max(t, T)
+            proposed = times[-1] + vdt       # nothing can fire: only volume steps happen
         elif Q <= t or T <= t:
             lt = yield Menu('wait', [Letter('any', 0.5, 0)], dict(t=t, Lam=Lam))
             us.append(lt.u)
